@@ -753,6 +753,14 @@ fn stage_subquery(ctx: &mut Ctx, rng: &mut Rng, case: u64, files: bool) {
                 MaterializedRow::new((0..nc).map(|_| gen_owned(rng, if files { 3000 } else { 100 })).collect())
             })
             .collect();
+        let mut rows: Vec<MaterializedRow> = rows;
+        // length prefixes: values around the 16-bit boundary (followed by another row, so mis-framing shows)
+        if files && rng.chance(1, 10) {
+            let l = *rng.pick(&[65_535usize, 65_536, 65_537, 70_000, 131_072]);
+            let at = rng.usize(0, rows.len());
+            let v = if rng.chance(2, 3) { OwnedValue::Text(gen_string(rng, l)) } else { OwnedValue::Blob(gen_bytes(rng, l)) };
+            rows.insert(at, MaterializedRow::new(vec![OwnedValue::Int(l as i64), v, OwnedValue::Int(-1)]));
+        }
         (limit, rows)
     };
     let (l1, r1) = mk(rng);
